@@ -167,7 +167,7 @@ fn api_property(op: &Op) -> &'static str {
     }
 }
 
-fn owns(model: &Model, layer: usize, path: &[u8]) -> bool {
+pub fn owns(model: &Model, layer: usize, path: &[u8]) -> bool {
     let d = model.ldir(layer);
     if path == d.as_slice() || (path.starts_with(&d) && path.get(d.len()) == Some(&b'/')) {
         return true;
@@ -178,7 +178,7 @@ fn owns(model: &Model, layer: usize, path: &[u8]) -> bool {
     (0..3).any(|f| path == model.lsbom(layer, f).as_slice())
 }
 
-fn strip_layer(model: &Model, layer: usize, s: &Snap) -> Snap {
+pub fn strip_layer(model: &Model, layer: usize, s: &Snap) -> Snap {
     Snap {
         nodes: s
             .nodes
@@ -633,6 +633,14 @@ pub fn run_history(history: &History, cfg: &RunCfg, shim: &Shim) -> RunReport {
                     _ => "I-write",
                 };
                 props.insert(api.to_string());
+                // the environment's on-disk layout is C03's subject whichever API wrote it
+                let env_lines = own.iter().any(|l| {
+                    let path = l.splitn(3, ' ').nth(1).unwrap_or("");
+                    path.contains("/env/") || path.contains("/env.build") || path.contains("/env.launch") || path.ends_with("/env:") || path.ends_with("/env")
+                });
+                if env_lines && matches!(op, Op::Handle { .. }) {
+                    props.insert("C03".into());
+                }
                 let leftovers = own.iter().any(|l| l.starts_with("unexpected"));
                 if deleting && leftovers {
                     props.insert("C11".into());
@@ -644,6 +652,22 @@ pub fn run_history(history: &History, cfg: &RunCfg, shim: &Shim) -> RunReport {
             viol = Some((props.into_iter().collect(), inv.into(), lines.clone()));
         }
 
+        // a wrong environment on disk after a trait-API request also counts against C03
+        let env_on_disk_wrong = matches!(op, Op::Handle { .. })
+            && own.iter().any(|l| {
+                let path = l.splitn(3, ' ').nth(1).unwrap_or("").trim_end_matches(':');
+                path.contains("/env/") || path.contains("/env.build") || path.contains("/env.launch") || path.ends_with("/env")
+            });
+        if let Some((props, _, detail)) = viol.as_mut() {
+            if env_on_disk_wrong && !props.contains(&"C03".to_string()) {
+                props.push("C03".into());
+                for l in &own {
+                    if !detail.contains(*l) {
+                        detail.push((*l).clone());
+                    }
+                }
+            }
+        }
         if let Some((properties, invariant, detail)) = viol {
             let detail: Vec<String> = detail.iter().map(|l| scrub(l, &cfg.root)).collect();
             let mut sig_lines: Vec<String> = detail
